@@ -129,6 +129,7 @@ class Raised(Exception):
 
 ALLOWED = (int, bool, str, type(None), tuple, list, dict, set, frozenset, Sym, Obj, deque, range, ModRef, Ref, Bound, ExtRef, SuperRef)
 
+
 CallHook = Callable[["Evaluator", ast.Call, Optional[str]], Any]
 NO_MATCH = object()
 
@@ -488,6 +489,8 @@ class Evaluator:
             return self.bind[n.id]
         if n.id in ("True", "False", "None"):
             return {"True": True, "False": False, "None": None}[n.id]
+        if n.id in ("str", "int", "len", "abs"):
+            return ExtRef(f"builtins.{n.id}")
         if self.repo is not None and self.mod_stack and self.mod_stack[-1] is not None:
             return self._module_name(self.mod_stack[-1], n.id)
         raise NotEvaluable(f"unbound name {n.id}")
@@ -769,6 +772,45 @@ class Evaluator:
         self._comp(n.generators, body)
         return out
 
+    def _e_Lambda(self, n):
+        return ("<lambda>", n, dict(self.env))
+
+    def _key_function(self, node: ast.expr):
+        k = self.eval(node)
+        if isinstance(k, ExtRef) and k.name.startswith("builtins.str.") and hasattr(str, k.name.split(".")[-1]):
+            meth = getattr(str, k.name.split(".")[-1])
+            return lambda v: meth(v)
+        if isinstance(k, ExtRef) and k.name in ("builtins.len", "builtins.abs", "builtins.str", "builtins.int"):
+            return {"builtins.len": len, "builtins.abs": abs, "builtins.str": str, "builtins.int": int}[k.name]
+        if isinstance(k, tuple) and k and k[0] == "<lambda>":
+            lam, env = k[1], k[2]
+
+            def call(v):
+                saved = self.env
+                self.env = dict(env)
+                self.env[lam.args.args[0].arg] = v
+                try:
+                    return self.eval(lam.body)
+                finally:
+                    self.env = saved
+
+            return call
+        raise NotEvaluable(f"key function {ast.unparse(node)[:40]} not supported")
+
+    def _sorted(self, items, call: ast.Call):
+        key = None
+        rev = False
+        for kw in call.keywords:
+            if kw.arg == "key":
+                key = self._key_function(kw.value)
+            elif kw.arg == "reverse":
+                rev = bool(self.eval(kw.value))
+        keys = [key(x) if key else x for x in items]
+        if not (all(isinstance(k, (int, float)) and not isinstance(k, bool) for k in keys) or all(isinstance(k, str) for k in keys) or all(isinstance(k, tuple) for k in keys)):
+            raise NotEvaluable("sort keys are not all numbers / strings")
+        order = sorted(range(len(items)), key=lambda i: keys[i], reverse=rev)
+        return [items[i] for i in order]
+
     def _e_JoinedStr(self, n):
         return "<f-string>"  # message text only; its parts are deliberately not evaluated
 
@@ -844,12 +886,7 @@ class Evaluator:
             if f == "dict" and not args:
                 return {}
             if f == "sorted":
-                if n.keywords:
-                    raise NotEvaluable("sorted with key/reverse in index code")
-                items = self._iterate(args[0], n)
-                if all(isinstance(x, int) for x in items) or all(isinstance(x, str) for x in items):
-                    return sorted(items)
-                raise NotEvaluable("sorted() over non-scalar items")
+                return self._sorted(list(self._iterate(args[0], n)), n)
             if f == "reversed":
                 return list(reversed(self._iterate(args[0], n)))
             if f == "enumerate":
@@ -929,8 +966,8 @@ class Evaluator:
                     return None
                 if meth == "pop":
                     return recv.pop(*args)
-                if meth == "sort" and not n.keywords and all(isinstance(x, (int, str)) for x in recv):
-                    recv.sort()
+                if meth == "sort":
+                    recv[:] = self._sorted(list(recv), n)
                     return None
             if isinstance(recv, str):
                 if meth == "split":
